@@ -44,7 +44,7 @@ CHECKS = {
         quick=dict(shards=4, checks=60, extra=[dict(test='TestC04Client', checks=30, shards=4), dict(test='TestC04Keys', checks=1, shards=2)]),
         thorough=dict(shards=12, checks=9000, budget_s=3000, fuzz=[dict(target='FuzzDeserialize', time='90s', wall=600)], extra=[dict(test='TestC04Client', checks=800, shards=4), dict(test='TestC04Keys', checks=1, shards=4)]),
         level_text=('Every generated valid packet is subjected to the enumerated fault list: all single-bit flips (exhaustive for packets '
-                    '<= 256 bytes), all truncation lengths, extension, re-keying, reflection, garbage bodies, attacker-with-key declared '
+                    '<= 256 bytes), all truncation lengths, extension, re-keying, reflection, garbage bodies, a receiver that has no session key yet, attacker-with-key declared '
                     'lengths {-2^31,-1,len-33..len+33,2^30,2^31-1}, wrong parity, inconsistent plain packets; the expected verdict is '
                     'computed by an independent reading of the four acceptance conditions.'),
         technique='fault enumeration over generated packets (rapid) with a reference acceptance decision',
@@ -209,7 +209,7 @@ CHECKS = {
         inflight=True,
         level_text=('Structure-aware mutation of valid encodings of every registered constructor (truncation to any prefix, aligned words replaced by registered/enum/'
                     'special ids and boundary integers, vector counts and length bytes, splices, containers with hostile counts/sizes, gzip_packed with valid, truncated, '
-                    'nested and garbage streams) decoded as unknown object (with/without matching or mismatching vector hints) and into named types; every call must '
+                    'nested and garbage streams; constructors nested in themselves 999 to 100 000 (thorough: 1 000 000) levels deep, directly, through vectors and through gzip_packed) decoded as unknown object (with/without matching or mismatching vector hints) and into named types; every call must '
                     'return a value or an error, allocate <= 64*len+4 MiB (1 GiB with gzip) and terminate. Workers run under a 4 GiB address-space limit with the input '
                     'flushed to disk before each call, so an unrecoverable runtime abort is attributed to its input. Thorough adds two native fuzz targets.'),
         technique='structure-aware mutation fuzzing driven by rapid + exhaustive prefix truncation per constructor + native coverage-guided fuzzing (thorough)',
@@ -267,7 +267,7 @@ CHECKS = {
         level_text=('An otherwise conformant key exchange (real client in a fresh process, reference server) is run with exactly one fault of the statement\'s list: nonce / '
                     'server_nonce echoed wrongly in resPQ, server_DH_params_ok, the decrypted server_DH_inner_data and dh_gen_ok (bit flip, random value, the other nonce, '
                     'zero); fingerprint list without the configured key; encrypted DH answer whose SHA-1 prefix does not match (prefix or content bit flipped); wrong '
-                    'new_nonce_hash (flip, hash2, hash3, random); wrong-kind replies (server_DH_params_fail, dh_gen_retry, dh_gen_fail). After a fault in the last step the server, '
+                    'new_nonce_hash (flip, hash2, hash3, random); wrong-kind replies (server_DH_params_fail, dh_gen_retry - also a well-formed one followed by an accepting server -, dh_gen_fail, rpc_error, eleven well-formed objects of other kinds incl. null); each nonce fault also against a baseline whose legitimate nonce / server_nonce is zero. After a fault in the last step the server, '
                     'which holds the negotiated key, may go on speaking (new_session_created, bad_server_salt or an update sealed under that key): nothing may be stored or sent then either. The catalogue is enumerated; '
                     'thorough covers every bit position of every field up to 160 bits.'),
         technique='fault enumeration over a generated baseline exchange against a scripted reference server (rapid + enumerated fault catalogue)',
@@ -357,7 +357,7 @@ CHECKS = {
                     'by a probe request that must complete: every MTProto service constructor the client can be sent (pong, msgs_ack, new_session_created, bad_msg_notification, '
                     'msgs_state_info, msgs_all_info, msg_detailed_info, msg_new_detailed_info, future_salts, bad_server_salt for an unknown or an already answered message, a silent salt rotation), rpc_result / rpc_error for unknown ids, a repeated result for an answered '
                     'request, API objects as updates, unregistered constructor ids, truncated / empty / random bodies, empty and nested containers, gzip_packed around any object, '
-                    'content-related or not, a well-formed value of every definition of mtproto.tl and of sampled API constructors (generated from the schema text, serialised by the reference codec), and an orderly connection close (the server then expects a new connection whose frames are encrypted under the same key). Every event '
+                    'content-related or not, a well-formed value of every definition of mtproto.tl and of sampled API constructors (generated from the schema text, serialised by the reference codec), an orderly connection close - also with a request still unanswered, its answer following after one to three reconnections - (the server then expects a new connection whose frames are encrypted under the same key). Every event '
                     'kind is also run alone in four wrappings.'),
         technique='history generation (rapid) + per-event enumeration against a scripted reference server with a live client per case; state inspection for a stopped loop',
         rule=('case = list of server events with wrapping flags; after each a probe. Non-trivial: at least one event other than pong/ack; distinct by hash of the event list.'),
